@@ -2,14 +2,14 @@
 
 // C08 — detected corruption is quarantined: affected and older blocks are not served.
 //
-//   seq/*   a scripted history spreads 8 objects over 3 blocks (neighbours sharing sectors); then for
-//           EVERY object x and EVERY corruption extent (each single byte of x, each sector overlapping
-//           x, all of x) the medium is corrupted, followed by EVERY sequence (depth bound) of reads of
-//           any object, existence checks, fresh uploads and a second corruption in the newest block.
-//           Reference model: q = newest block in which corruption has been detected so far; an object
-//           in a block <= q must be absent, a corrupted object must fail with INTERNAL (never complete),
-//           every other object must read back exactly.
-//   conc/*  detection racing an upload in flight into the same block, another reader and a rotation.
+//	seq/*   a scripted history spreads 8 objects over 3 blocks (neighbours sharing sectors); then for
+//	        EVERY object x and EVERY corruption extent (each single byte of x, each sector overlapping
+//	        x, all of x) the medium is corrupted, followed by EVERY sequence (depth bound) of reads of
+//	        any object, existence checks, fresh uploads and a second corruption in the newest block.
+//	        Reference model: q = newest block in which corruption has been detected so far; an object
+//	        in a block <= q must be absent, a corrupted object must fail with INTERNAL (never complete),
+//	        every other object must read back exactly.
+//	conc/*  detection racing an upload in flight into the same block, another reader and a rotation.
 package main
 
 import (
@@ -58,7 +58,8 @@ type world struct {
 	logSeen int
 	qlogs   []qlog
 	clock   int
-	level   int // quarantine level (absolute number of blocks that must be gone) after the last detection
+	cached  map[string]bool // objects the integrity cache may hold as validated
+	level   int             // quarantine level (absolute number of blocks that must be gone) after the last detection
 }
 
 func (w *world) tick() int { w.clock++; return w.clock }
@@ -141,7 +142,7 @@ func acObj(name string, n int, val []byte) *obj {
 }
 
 func newWorld(g lstore.Geometry) *world {
-	w := &world{s: lstore.Open(g, lstore.NewMedia(g)), q: -1, ac: g.AC}
+	w := &world{s: lstore.Open(g, lstore.NewMedia(g)), q: -1, ac: g.AC, cached: map[string]bool{}}
 	w.hook()
 	if g.AC {
 		for i := 0; i < 6; i++ {
@@ -175,6 +176,9 @@ func (w *world) expect(o *obj) string {
 	case o.block < 0 || o.block <= w.q:
 		return "absent"
 	case w.corrupted(o):
+		if w.s.Geo.IntegrityCache && w.cached[o.Name] {
+			return "undetectable" // validated earlier: the integrity cache serves it unchecked for the cache duration, by design
+		}
 		if w.ac && !w.corruptedUnparsable(o) {
 			return "undetectable" // AC corruption that still parses cannot be noticed; out of the property's scope
 		}
@@ -234,6 +238,7 @@ func (w *world) get(o *obj, where string) {
 		if !bytes.Equal(d, o.Content) {
 			failf("wrong-bytes", "%s: Get(%s) = %q", where, o.Name, d)
 		}
+		w.cached[o.Name] = true
 	}
 	w.locate()
 }
@@ -274,6 +279,9 @@ func (w *world) findMissing(where string) {
 		}
 		if wants[o.Name] == "data" && miss[o.Digest.String()] {
 			failf("unaffected-object-reported-missing", "%s: FindMissing reports %s missing although it lies in block %d, newer than the quarantined block %d", where, o.Name, o.block, w.q)
+		}
+		if !miss[o.Digest.String()] {
+			w.cached[o.Name] = true // a refresh copies through a validating buffer
 		}
 	}
 	vsched.Obs("FM=OK")
@@ -450,14 +458,14 @@ func concBody(g lstore.Geometry, variant int) func() {
 		other := w.objs[len(w.objs)-2]
 		if variant == 0 {
 			run("reader", func() {
-			d, err := w.s.Get(other.Digest)
-			vsched.Obs("reader=%s", status.Code(err))
-			if err == nil && !bytes.Equal(d, other.Content) {
-				failf("wrong-bytes", "Get(%s) = %q", other.Name, d)
-			}
-			if err != nil && status.Code(err) != codes.NotFound {
-				failf("unaffected-object-error-"+status.Code(err).String(), "concurrent Get(%s) failed with %v", other.Name, err)
-			}
+				d, err := w.s.Get(other.Digest)
+				vsched.Obs("reader=%s", status.Code(err))
+				if err == nil && !bytes.Equal(d, other.Content) {
+					failf("wrong-bytes", "Get(%s) = %q", other.Name, d)
+				}
+				if err != nil && status.Code(err) != codes.NotFound {
+					failf("unaffected-object-error-"+status.Code(err).String(), "concurrent Get(%s) failed with %v", other.Name, err)
+				}
 			})
 		}
 		if variant >= 1 {
@@ -520,6 +528,84 @@ func concBody(g lstore.Geometry, variant int) func() {
 	}
 }
 
+// hierDedupBody: hierarchical store, X and Y stored under instance name a in the same block; the bytes of Y
+// are corrupted. A gated upload of X under instance name b (which the store de-duplicates against the copy
+// it already holds instead of storing the data again) is in flight while Get(a/Y) detects the corruption.
+func hierDedupBody(g lstore.Geometry) func() {
+	return func() {
+		s := lstore.Open(g, lstore.NewMedia(g))
+		clock, detectedAt, lastUploadRead := 0, 0, 0
+		tick := func() int { clock++; return clock }
+		s.Errors.Hook = func(msg string) {
+			if strings.Contains(msg, "due to a data integrity error") && detectedAt == 0 {
+				detectedAt = tick()
+			}
+		}
+		xa := lstore.CASObj("X", "a", []byte("xxXx"))
+		ya := lstore.CASObj("Y", "a", []byte("yyYyy"))
+		xb := lstore.CASObj("X", "b", []byte("xxXx"))
+		for _, o := range []lstore.Obj{xa, ya} {
+			if err := s.PutOK(o.Digest, o.Content); err != nil {
+				vsched.HarnessFail("history Put(%s): %v", o.Name, err)
+			}
+		}
+		img := s.Media.Data.Image
+		off := bytes.Index(img, ya.Content)
+		if off < 0 {
+			vsched.HarnessFail("Y not found on the device")
+		}
+		img[off] ^= 0x40
+		var upErr error
+		var wg vsync.WaitGroup
+		wg.Add(2)
+		vsched.GoNamed("detect", false, func() {
+			defer wg.Done()
+			_, err := s.Get(ya.Digest)
+			vsched.Obs("detect=%s", status.Code(err))
+			if err == nil {
+				failf("corrupted-read-completed", "Get(a/Y) completed although its bytes are corrupted")
+			}
+		})
+		vsched.GoNamed("upload", false, func() {
+			defer wg.Done()
+			src := sim.NewSource(sim.Script{Chunks: [][]byte{xb.Content[:2], xb.Content[2:]}})
+			src.Gate = func() { vsched.Yield("upload.Read"); lastUploadRead = tick() }
+			upErr = s.BA.Put(context.Background(), xb.Digest, buffer.NewCASBufferFromReader(xb.Digest, sim.ReaderView{S: src}, buffer.UserProvided))
+			vsched.Obs("upload=%s", status.Code(upErr))
+		})
+		wg.Wait()
+		if upErr != nil && status.Code(upErr) != codes.Internal {
+			failf("upload-error-"+status.Code(upErr).String(), "Put(b/X) failed with %v", upErr)
+		}
+		if upErr == nil && detectedAt != 0 && detectedAt < lastUploadRead {
+			miss, err := s.FindMissing(xb.Digest)
+			d, gerr := s.Get(xb.Digest)
+			if err != nil || miss[xb.Digest.String()] || gerr != nil || !bytes.Equal(d, xb.Content) {
+				failf("in-flight-upload-into-quarantined-block-acknowledged", "the upload of b/X was still reading its data after the corruption had been detected and was acknowledged; the object is not there: FindMissing missing=%v err=%v, Get=%q err=%v", miss[xb.Digest.String()], err, d, gerr)
+			}
+			vsched.Mark()
+		}
+		// nothing stored in the quarantined block may be visible under a
+		if detectedAt != 0 {
+			if d, err := s.Get(xa.Digest); err == nil {
+				if upErr != nil || !bytes.Equal(d, xa.Content) {
+					failf("quarantined-object-served", "after the detection Get(a/X) returned %q although it shared the quarantined block and nothing re-uploaded it", d)
+				}
+			} else if status.Code(err) != codes.NotFound {
+				failf("quarantined-object-error-"+status.Code(err).String(), "Get(a/X) failed with %v", err)
+			}
+		}
+		// store keeps accepting uploads
+		n := lstore.CASObj("N", "b", []byte("after"))
+		if err := s.PutOK(n.Digest, n.Content); err != nil {
+			failf("upload-after-detection-fails-"+status.Code(err).String(), "upload after detection failed: %v", err)
+		}
+		if d, err := s.Get(n.Digest); err != nil || !bytes.Equal(d, n.Content) {
+			failf("fresh-upload-unreadable", "Get of an object uploaded after detection = %q, %v", d, err)
+		}
+	}
+}
+
 var _ = context.Background
 
 func main() {
@@ -534,11 +620,17 @@ func main() {
 	ac := base
 	ac.AC, ac.Mutable = true, true
 	scs = append(scs, mc.Scenario{Name: "seq/ac", Space: fmt.Sprintf("AC store (Protobuf validation): 6 ActionResults; every object x every corruption extent that breaks parsing x all sequences of %d follow-up operations on %s", depth, ac), Bound: 0, ShardDepth: 2, Body: seqBody(ac, depth), Budget: time.Duration(ev.Pick(r, 100, 900)) * time.Second})
+	ic := base
+	ic.IntegrityCache = true
+	scs = append(scs, mc.Scenario{Name: "seq/cas-integrity-cache", Space: fmt.Sprintf("as seq/cas with the data integrity validation cache in front of the CAS buffers (a validated object is served unchecked afterwards, so only corruption of not yet validated objects is detectable; a detection must still quarantine) on %s", ic), Bound: 0, ShardDepth: 2, Body: seqBody(ic, depth), Budget: time.Duration(ev.Pick(r, 150, 1200)) * time.Second})
 	cg := base
 	cg.DataGates = true
 	for v := 0; v < 4; v++ {
 		scs = append(scs, mc.Scenario{Name: fmt.Sprintf("conc/variant%d", v), Space: []string{"detecting Get(x) || upload in flight into x's block || Get(neighbour)", "detecting Get(x) || upload in flight into x's block || three block-sized uploads forcing rotations", "x in the oldest block: detection || upload || three block-sized uploads forcing rotations", "x in a middle block: detection || upload || three block-sized uploads forcing rotations"}[v] + " on " + cg.String(), Bound: ev.Pick(r, 2, 3), Body: concBody(cg, v), Budget: time.Duration(ev.Pick(r, 40, 400)) * time.Second})
 	}
+	hg := base
+	hg.Hierarchical, hg.New, hg.DataGates = true, 2, true
+	scs = append(scs, mc.Scenario{Name: "conc/hier-dedup-upload", Space: "hierarchical store: detecting Get(a/Y) || gated upload of X under instance name b while a/X (same block as Y) is what the store de-duplicates against, on " + hg.String(), Bound: ev.Pick(r, 2, 3), Body: hierDedupBody(hg), Budget: time.Duration(ev.Pick(r, 40, 400)) * time.Second})
 	mc.Run(r, scs)
 	r.Finish()
 }
